@@ -211,8 +211,9 @@ func handleObjectWithAssociation(metaBkt *bbolt.Bucket, diff *CountersDiff, curr
 			return logicerr.Wrap(apistatus.LockNonRegularObject{})
 		}
 
+		// expiration has a priority in the status, but a removed object must not be locked anyway
 		st := objectStatus(metaCursor, target, currEpoch)
-		if st == statusTombstoned {
+		if st == statusTombstoned || inGarbage(metaCursor, target) == statusTombstoned {
 			return logicerr.Wrap(apistatus.ErrObjectAlreadyRemoved)
 		}
 
